@@ -1,0 +1,23 @@
+//go:build verif
+
+// Contracts for package server (comment-only; read by /verif/govc, never compiled into olric).
+
+package server
+
+//@ devirt redcon.Handler => Handler
+
+// The mux never has a plain "pubsub" entry: PUBSUB sub-commands are registered as "pubsub <sub>".
+// This is a data-structure invariant of ServeMux established at registration time (assumed here,
+// see DESIGN.md C16); with it the wrapped handler may read Args[1] for PUBSUB commands.
+//@ func (m *ServeMux) ServeRESP(conn redcon.Conn, cmd redcon.Command)
+//@   props C16
+//@   flag termination
+//@   flag skip nil
+//@   requires #args: len(cmd.Args) >= 1
+//@   requires #no_plain_pubsub: !("pubsub" in m.handlers)
+
+//@ func (h Handler) ServeRESP(conn redcon.Conn, cmd redcon.Command)
+//@   props C16
+//@   flag termination
+//@   flag skip nil
+//@   requires #pubsub_has_sub: len(cmd.Args) >= 2 || len(cmd.Args) == 0 || (string(cmd.Args[0]) != "pubsub" && string(cmd.Args[0]) != "PUBSUB")
